@@ -153,6 +153,10 @@ impl Config {
         let ry = fh as i64 - self.h as i64 - self.oy as i64;
         self.w != self.h && (self.ox as i64 != rx || self.oy as i64 != ry) && (self.ox != self.oy || rx != ry)
     }
+    /// colour-order bit the controller is expected to hold (one external model inverts it by design)
+    pub fn madctl_bgr(&self) -> bool {
+        self.bgr ^ (self.model == ModelId::EInvBgr)
+    }
     pub fn non_default(&self) -> bool {
         self.orient != (Orient { rot: 0, mirrored: false }) || self.ox != 0 || self.oy != 0
     }
@@ -224,8 +228,19 @@ pub enum DrawOp {
 /// probability 2^-bits only.
 pub fn colour_of(seed: u32, k: u64, bits: u32) -> u32 {
     let mask = (1u64 << bits) - 1;
+    if seed & 7 == 7 {
+        // palette mode (one seed in eight): only three distinct colours, chosen pseudo-randomly per
+        // index, so that patterns like A B A / A A B A occur (same colour at both ends of a run,
+        // a different one inside) - a "uniform run" shortcut is only visible on such streams
+        let idx = colour_hash(seed ^ 0x5bd1_e995, k) % 3;
+        return (colour_hash(seed, idx) & mask) as u32;
+    }
+    (colour_hash(seed, k) & mask) as u32
+}
+
+fn colour_hash(seed: u32, k: u64) -> u64 {
     let mut z = k.wrapping_add((seed as u64) << 32 | 0x9E37_79B9).wrapping_mul(0x9E37_79B9_7F4A_7C15);
     z = (z ^ (z >> 30)).wrapping_mul(0xBF58_476D_1CE4_E5B9);
     z = (z ^ (z >> 27)).wrapping_mul(0x94D0_49BB_1331_11EB);
-    ((z ^ (z >> 31)) & mask) as u32
+    z ^ (z >> 31)
 }
